@@ -1,6 +1,6 @@
-(* Extraction of the executable models to OCaml for the correspondence check.
-   ExtrOcamlBasic only: bool, option, unit, list, prod, sumbool, sumor become
-   OCaml's; nat, positive, N, Z, Q stay Coq datatypes. *)
+(* Extraction of component 'base' (ListDict, Aux) to OCaml for the
+   correspondence check.  ExtrOcamlBasic only: bool, option, unit, list, prod,
+   sumbool, sumor become OCaml's; nat, positive, N, Z, Q stay Coq datatypes. *)
 From EoNV Require Import Prelude Samp ListDict Aux.
 Require Extraction.
 Require Import ExtrOcamlBasic.
@@ -12,7 +12,7 @@ Definition ldN_total := ld_total_weight N.
 Definition ldN_round := ld_choose_round N.
 Definition ldN_wread := wread N.
 
-Extraction "../ocaml/model.ml"
+Extraction "../ocaml/gen/base_model.ml"
   ldN_empty ldN_step ldN_total ldN_round ldN_wread
   subsample subsample2 subsample3 get_time_shift Pk psi psiP psiDP estimate_R0 Pnk maxdeg
-  Qred exec.
+  Qred.
